@@ -6,6 +6,7 @@
 mod obs;
 mod hist;
 mod gens;
+mod par;
 use std::io::{BufRead, Write};
 
 fn main() {
@@ -39,6 +40,7 @@ fn main() {
                 match mode {
                     "hist" => hist::run_case(&cur, &mut o),
                     "gens" => gens::run_case(&cur, &mut o),
+                    "par" => par::run_case(&cur, &mut o),
                     _ => {
                         eprintln!("unknown mode {}", mode);
                         std::process::exit(2);
